@@ -3,4 +3,4 @@ From Martian.Common Require Import ExtractBase.
 From Martian.C13 Require Import Model.
 Extraction Language OCaml.
 Extraction "model.ml" base_anchor spec_outputs model_outputs repaired pinned
-  c13_ok model_agrees first_diff c13_conc_ok c13_serial_ok c13_answer_ok c13_same_set_ok expected_both root expected leaf_ids.
+  c13_ok model_agrees first_diff c13_conc_ok c13_serial_ok c13_answer_ok c13_same_set_ok c13_load_ok load_answer expected_both root expected leaf_ids.
